@@ -234,8 +234,17 @@ def _range_checked_before(model: Model, f: FuncInfo, node: ast.AST, val: ast.AST
                     tgt = model.resolve_expr(f.module, c.func, f.cls)
                     if tgt in model.funcs:
                         g = model.funcs[tgt]
-                        src = unparse(g.node)
-                        if ("> 1114111" in src or ">= 1114112" in src) and "raise" in src:
+                        import copy as _copy
+
+                        gn = _copy.deepcopy(g.node)
+                        consts = {k: v for k, v in g.module.assigns.items() if isinstance(v, ast.Constant) and isinstance(v.value, int)}
+
+                        class _Sub(ast.NodeTransformer):
+                            def visit_Name(s2, n2: ast.Name):
+                                return ast.copy_location(ast.Constant(value=consts[n2.id].value), n2) if isinstance(n2.ctx, ast.Load) and n2.id in consts else n2
+
+                        src = unparse(_Sub().visit(gn))  # named module constants read as their values
+                        if ("> 1114111" in src or ">= 1114112" in src or "1114111 <" in src or "1114112 <=" in src) and "raise" in src:
                             return True
     return False
 
